@@ -28,7 +28,7 @@ ASSUMPTIONS = ['failpoints sit at python-level step boundaries; a crash inside o
                'a hung pool after a dead worker is killed by the watchdog and judged on the files it left (no liveness claim)',
                'the clean run must report success, otherwise the case is inconclusive']
 MIN_NONTRIVIAL = {'quick': 50, 'thorough': 1500}
-REQUIRED_MONITORS = ['trace:steps_recorded', 'fault:fired', 'fault:raise', 'fault:exit', 'fault:kill', 'fault:persistent', 'history:stale_success_of_earlier_run', 'layout:more_than_100_small_contigs', 'layout:more_than_500_large_contigs', 'layout:last_small_contig_holds_supplementary_records_only', 'layout:contig_with_placed_unmapped_pairs_only', 'option:skip_contig', 'names:runs', 'names:success_reported', 'names:refused_or_failed_without_success_marker', 'fault:class:OSError', 'fault:class:RuntimeError', 'oracle:status_read', 'oracle:success_verified',
+REQUIRED_MONITORS = ['history:input_index_older_than_the_input_by_less_than_a_second', 'stale_index:success_reported', 'trace:steps_recorded', 'fault:fired', 'fault:raise', 'fault:exit', 'fault:kill', 'fault:persistent', 'history:stale_success_of_earlier_run', 'layout:more_than_100_small_contigs', 'layout:more_than_500_large_contigs', 'layout:last_small_contig_holds_supplementary_records_only', 'layout:contig_with_placed_unmapped_pairs_only', 'option:skip_contig', 'names:runs', 'names:success_reported', 'names:refused_or_failed_without_success_marker', 'fault:class:OSError', 'fault:class:RuntimeError', 'oracle:status_read', 'oracle:success_verified',
                      'clean:success', 'pipeline:single', 'pipeline:multi', 'fault:in_worker']
 SHARD_TIMEOUT = {'quick': 1200, 'thorough': 14400}
 SUCCESS = 'Reached end. All ok!'
@@ -55,6 +55,9 @@ def gen_cases(tier, seed):
     # output names in the forms users type them: other letter case of the extension, dots and spaces in directory names
     for k in range(3 if tier == 'quick' else 12):
         cases.append({'kind': 'output_names', 'cfg': 70 + k, 'method': ('nla', 'chic')[k % 2], 'multi': bool((k // 2) % 2), 'seed': seed, 'tier': tier})
+    # history of the input: an index next to it that is older than the file by less than a second and describes an earlier content
+    for k in range(2 if tier == 'quick' else 8):
+        cases.append({'kind': 'stale_input_index', 'cfg': 80 + k, 'method': ('nla', 'chic')[k % 2], 'multi': True, 'seed': seed, 'tier': tier})
     return cases
 
 
@@ -187,9 +190,74 @@ def run_output_names(case):
     return acc
 
 
+def run_stale_input_index(case):
+    """The input was written and indexed, and written again with more reads on its first contig within the same second of the clock: the index
+    is older than the file (by half a second) and describes the earlier content. All records have the same size, so what the old index points
+    at are still record boundaries - nothing fails while reading. Whatever the tool does with it: a success marker only next to a complete output."""
+    import time as _time
+    acc = Acc()
+    r = rng(case['seed'], 'C20', 'stale_input_index', case['cfg'])
+    method = case['method']
+    contigs = [('chr1', 30000), ('chr2', 30000), ('chr3', 9000)][:r.randint(2, 3)]
+    gen = F.Genome(r, contigs)
+    recs = []
+    rid = 100
+    for name, ln in contigs:
+        for _ in range(r.randint(3, 6)):
+            pos = r.randrange(500, ln - 500)
+            if method == 'nla':
+                if 'CATG' in gen.get(name)[pos - 45:pos + 45]:
+                    continue
+                gen.plant(name, pos)
+            for _copy in range(r.randint(1, 2)):
+                fr, tr = F.make_fragment(gen, r, rid, 900 + case['cfg'], method, r.randint(1, 2), name, pos, r.random() < 0.5, F.rand_dna(r, 3), 100, single_end=True)
+                if fr is not None:
+                    recs.extend(fr)
+                    rid += 1
+    sizes = set((len(x['name']), len(x['seq']), x['cigar'], tuple(sorted((k, len(str(v))) for k, v in x['tags'].items()))) for x in recs)
+    if case['cfg'] % 4 < 2:
+        # ... and an unmapped read at the end of both versions of the file
+        u = F.unmapped_pair(r, rid, 900 + case['cfg'], 1, F.rand_dna(r, 3), mx=F.MX_NLA if method == 'nla' else F.MX_CHIC_TRIMMED)[:1]
+        u[0]['flag'] = 4
+        recs.extend(u)
+    acc.count('stale_index:libraries_with_records_of_one_size', 1 if len(sizes) == 1 else 0)
+    expect = Counter((F.id_from_name(x['name']), 1) for x in recs)
+    with Scratch('c20s') as dd:
+        write_bam(os.path.join(dd, 'in.bam'), gen.refs, [x for x in recs if x.get('tid', -1) != 0])
+        bam = write_bam(os.path.join(dd, 'in.bam'), gen.refs, recs, index=False)
+        t0 = int(_time.time()) - 120
+        os.utime(bam + '.bai', (t0 + 0.2, t0 + 0.2))
+        os.utime(bam, (t0 + 0.7, t0 + 0.7))
+        acc.count('history:input_index_older_than_the_input_by_less_than_a_second')
+        sub = os.path.join(dd, 'run')
+        os.makedirs(sub)
+        out = os.path.join(sub, 'tagged.bam')
+        spec = {'bam': bam, 'method': method, 'multiprocess': True, 'threads': 2, 'temp': sub, 'out': out, 'trace_file': os.path.join(sub, 'trace.jsonl'), 'fault': None}
+        rc, hung = run_driver(spec, sub, 'stale', timeout=300)
+        acc.evals += 1
+        status_path = out.replace('.bam', '.status.txt')
+        status = open(status_path).read().strip() if os.path.exists(status_path) else None
+        acc.count('oracle:status_read')
+        if status is not None and SUCCESS in status:
+            acc.count('stale_index:success_reported')
+            ok, why = verify_output(out, expect)
+            acc.count('oracle:success_verified')
+            if not ok:
+                acc.violate('success-marker-but-output-bad:stale-input-index', f'input with an index older than the file by 0.5 s (earlier content: without the reads of '
+                                                                               f'{contigs[0][0]}): the status file says the run finished successfully but {why} (method {method})',
+                            {'contigs': contigs, 'records': len(recs), 'method': method})
+        else:
+            acc.count('stale_index:failed_without_success_marker')
+        acc.sigs.add(f"stale_index/{case['cfg']}")
+    acc.sample = {'stale_input_index': True, 'method': method, 'records': len(recs), 'status': status}
+    return acc
+
+
 def run_case(case):
     if case.get('kind') == 'output_names':
         return run_output_names(case)
+    if case.get('kind') == 'stale_input_index':
+        return run_stale_input_index(case)
     acc = Acc()
     r = rng(case['seed'], 'C20', case['cfg'])
     method, multi = case['method'], case['multi']
@@ -269,7 +337,7 @@ def run_case(case):
         steps = [e for e in trace if 'step' in e]
         acc.count('trace:steps_recorded', len(steps))
         if status is None or SUCCESS not in status or rc != 0:
-            raise RuntimeError(f'clean run did not report success (rc={rc}, status={status!r}, hung={hung}) for {cfg}: inconclusive')
+            raise RuntimeError(f'clean run did not report success (rc={rc}, status={status!r}, hung={hung}, raised={[e.get("exc") for e in trace if e.get("event") == "raised"]}) for {cfg}: inconclusive')
         ok, why = verify_output(out, expect)
         if not ok:
             acc.violate('clean-run-success-but-output-bad', f'clean run reports success but {why} ({cfg})', {'config': cfg})
